@@ -34,4 +34,4 @@ LEVEL_TEXT = ('Bounded symbolic verification over histories: the real special me
               'double frees, out-of-bounds copies and use of moved-from storage. Right level: "no matter what the source has done" is a for-all over histories and values.')
 LEVEL_NOTE = 'history grammar and dimensions bounded as listed; exact arithmetic; -DNDEBUG build (memory safety from the engine object model)'
 TECHNIQUE = 'symbolic execution of LLVM IR (llsym) with history forking + SMT (z3 QF_NRA)'
-DESIGN_REF = 'DESIGN.md section 6/C15'
+DESIGN_REF = 'DESIGN.md section 0 (status as built: 0.2, 0.5, 0.6) and section 6/C15 (design)'
